@@ -161,6 +161,7 @@ pub fn run_property(def: &'static PropDef, tier: Tier, seed: u64, cases_override
                 let strategy = (def.strategy)(tier);
                 let stats = std::cell::RefCell::new(Stats::default());
                 let failed = std::cell::Cell::new(false);
+                let first_failure: std::cell::RefCell<Option<(Case, Violation)>> = std::cell::RefCell::new(None);
                 let result = runner.run(&strategy, |case| {
                     if stop.load(Ordering::Relaxed) && !failed.get() {
                         // another worker found a failure: finish quickly
@@ -208,6 +209,9 @@ pub fn run_property(def: &'static PropDef, tier: Tier, seed: u64, cases_override
                     }
                     match out.violation {
                         Some(v) => {
+                            if first_failure.borrow().is_none() {
+                                *first_failure.borrow_mut() = Some((out.repro.clone().unwrap_or_else(|| case.clone()), v.clone()));
+                            }
                             failed.set(true);
                             stop.store(true, Ordering::Relaxed);
                             Err(TestCaseError::fail(format!("{}:{}", v.property, v.kind)))
@@ -219,15 +223,27 @@ pub fn run_property(def: &'static PropDef, tier: Tier, seed: u64, cases_override
                 if let Err(e) = result {
                     match e {
                         TestError::Fail(reason, case) => {
-                            // re-run the minimal case to obtain the violation record
-                            let out = (def.eval)(&case);
-                            let violation = out.violation.unwrap_or(Violation {
-                                property: def.id,
-                                kind: "not-reproducible".into(),
-                                step: 0,
-                                detail: format!("shrunk case did not reproduce: {reason}"),
-                            });
-                            let case = out.repro.clone().unwrap_or(case);
+                            // re-run the minimal case to obtain the violation record; schedule-dependent
+                            // failures (real rayon pools) may need a few tries or fall back to the
+                            // first failing case
+                            let mut out = (def.eval)(&case);
+                            for _ in 0..3 {
+                                if out.violation.is_some() {
+                                    break;
+                                }
+                                out = (def.eval)(&case);
+                            }
+                            let (case, violation) = match (out.violation, first_failure.borrow_mut().take()) {
+                                (Some(v), _) => (out.repro.clone().unwrap_or(case), v),
+                                (None, Some((c0, v0))) => (
+                                    c0,
+                                    Violation { detail: format!("{} [schedule dependent: the shrunk case did not reproduce in 4 tries; this is the first failing case]", v0.detail), ..v0 },
+                                ),
+                                (None, None) => (
+                                    case,
+                                    Violation { property: def.id, kind: "not-reproducible".into(), step: 0, detail: format!("shrunk case did not reproduce: {reason}") },
+                                ),
+                            };
                             failures.lock().unwrap().push(Failure {
                                 case,
                                 violation,
